@@ -323,3 +323,6 @@ def known_match(case, failure, entry):
         return failure.get("kind") == "the repacked file does not hold the same content as the input" and \
             not failure.get("only_in_input") and not failure.get("only_in_output")
     return False
+
+
+RULE += (" " + "One case in thirty adds a dataset of 1.2-6 MB (larger than hrepack's 1 MiB copy buffer; six shapes with a partial strip before the end).")
